@@ -222,12 +222,22 @@ def execute(sc: dict, seed: int) -> dict:
            "digest": sched.digest(),
            "sample": {"existing": sc["existing"], "pubs": sc["pubs"], "subs": sc["subs"], "strategy": sc["strategy"],
                       "switches": len(sched.switches), "steps": sched.steps}}
-    if uniq:
-        res["recorded_choices"] = list(sched.choices)
+    if uniq and sc.get("choices") is None:
+        res["scenario_patch"] = {"choices": list(sched.choices)}
     return res
 
 
 def shrink_candidates(sc: dict):
+    # structural candidates change the workload, so they fall back to the seeded stream (choices=None) ...
+    for cand in _structural_candidates(sc):
+        yield dict(cand, choices=None)
+    # ... then the recorded choice stream of the (smaller) failing run is minimised: fewer pre-emptions
+    if isinstance(sc.get("choices"), list):
+        for ch in threads.choice_shrink_candidates(sc["choices"]):
+            yield dict(sc, choices=ch)
+
+
+def _structural_candidates(sc: dict):
     # fewer tasks / messages
     for i in reversed(range(len(sc["subs"]))):
         yield dict(sc, subs=sc["subs"][:i] + sc["subs"][i + 1:])
